@@ -19,7 +19,7 @@ use std::sync::{Arc, Condvar, Mutex};
 
 const MS1970_TO2K: u64 = 946_684_800_000;
 const MAX_THREADS: usize = 64;
-const WATCHDOG_SECS: u64 = 20;
+const WATCHDOG_SECS: u64 = 120; // a 66 000-call burst takes 3-6 s; 20 s was hit once on a momentarily slow host (false TIMEOUT)
 
 struct Case {
     readings: Vec<Vec<u64>>,
@@ -173,13 +173,15 @@ fn sched_cmd_unchecked(cmd: &str, args: &[&str]) -> String {
 /// Child side (`--one-sched`): read one case line from stdin, execute it, print one result line.
 pub fn sched_child_main() {
     std::panic::set_hook(Box::new(|_| {}));
-    std::thread::spawn(|| {
-        std::thread::sleep(std::time::Duration::from_secs(WATCHDOG_SECS));
+    let mut line = String::new();
+    let _ = std::io::stdin().lock().read_line(&mut line);
+    // the watchdog grows with the schedule: 20 s for ordinary cases, WATCHDOG_SECS for the bursts of tens of thousands of calls
+    let secs = if line.len() > 50_000 { WATCHDOG_SECS } else { 20 };
+    std::thread::spawn(move || {
+        std::thread::sleep(std::time::Duration::from_secs(secs));
         println!("TIMEOUT");
         std::process::exit(3);
     });
-    let mut line = String::new();
-    let _ = std::io::stdin().lock().read_line(&mut line);
     let toks: Vec<&str> = line.split_whitespace().collect();
     if toks.first() == Some(&"STRESS") && toks.len() == 3 {
         println!("{}", stress_child(toks[1].parse().unwrap_or(1), toks[2].parse().unwrap_or(1)));
